@@ -1,7 +1,7 @@
 (* Properties_C14.v -- C14: decoder reads are split-invariant, stop exactly at
    the declared length, and report faithful length and CRC.
    Statements only; proofs are in P_Decoder.v (model: Decoder.v). *)
-From Lhasa Require Import Base ListN DecBase Crc16 P_Crc16 Decoder P_Decoder P_DecoderInv.
+From Lhasa Require Import Base ListN DecBase Crc16 P_Crc16 Generated Decoder P_Decoder P_DecoderInv P_Progress.
 Local Open Scope N_scope.
 
 Section C14.
@@ -110,6 +110,52 @@ Section C14_inv.
   Proof. exact (stops_at_declared_length_inv dread max_read block_size I Htot). Qed.
 End C14_inv.
 
+(* --- the progress monitor (proofs: P_Progress.v) ---
+   blk p = ceil(p / block_size) as the C computes it; upto b T = [(0,T); ...; (b,T)];
+   run_reads_ev = run_reads keeping the (block, total) calls made during every read. *)
+Section C14_progress.
+  Context {cbs st : Type}.
+  Variable dread : st -> cbs -> outcome (list N * st * cbs).
+  Variable max_read block_size : N.
+  Variable I : st -> Prop.
+  Hypothesis Htot : forall s c, I s ->
+    exists ch s' c', dread s c = Ok (ch, s', c') /\ nlen ch <= max_read /\ I s'.
+
+  (* any two read schedules with the same total (zero-length reads included) make the
+     same monitor calls, return the same bytes and end in the same decoder, wherever the
+     monitor was attached *)
+  Theorem progress_split_invariant : forall ks1 ks2 (d : @decoder cbs st) os1 evs1 d1 os2 evs2 d2, I (d_inner d) ->
+    d_stream_pos d <= d_stream_length d -> mon_ok block_size d -> blocks_fit block_size d ->
+    sum_N ks1 = sum_N ks2 -> sum_N ks1 < 2 ^ 62 ->
+    run_reads_ev dread max_read block_size d ks1 = Ok (os1, evs1, d1) ->
+    run_reads_ev dread max_read block_size d ks2 = Ok (os2, evs2, d2) ->
+    concat os1 = concat os2 /\ concat evs1 = concat evs2 /\ d1 = d2.
+  Proof. exact (events_split_invariant_I dread max_read block_size I Htot). Qed.
+
+  (* monitor attached at the beginning: the calls are (0,T) (made by lha_decoder_monitor
+     itself), (1,T), ... one by one up to the block of the position reached, and up to
+     (T,T) exactly when the stream decodes completely; T = ceil(L / block_size) *)
+  Theorem progress_counts_up : forall ks inner c L, I inner ->
+    blk block_size L < 4294967295 -> sum_N ks < 2 ^ 62 ->
+    exists d1 os evs d2,
+      lha_decoder_monitor block_size (lha_decoder_new inner c L : @decoder cbs st) = (d1, [(0, blk block_size L)]) /\
+      d_total_blocks d1 = blk block_size L /\
+      run_reads_ev dread max_read block_size d1 ks = Ok (os, evs, d2) /\
+      [(0, blk block_size L)] ++ concat evs = upto (blk block_size (nlen (concat os))) (blk block_size L) /\
+      (d_stream_pos d2 = L -> [(0, blk block_size L)] ++ concat evs = upto (blk block_size L) (blk block_size L)) /\
+      d_stream_pos d2 = nlen (concat os) /\ nlen (concat os) <= L.
+  Proof. exact (events_count_up_I dread max_read block_size I Htot). Qed.
+End C14_progress.
+
+(* every block size of the decoder table is at least 2048 (so blk is the ceiling) *)
+Theorem block_sizes_positive :
+  Forall (fun b => 2048 <= b)
+    [decoder_block_size_0; decoder_block_size_1; decoder_block_size_2; decoder_block_size_3;
+     decoder_block_size_4; decoder_block_size_5; decoder_block_size_6; decoder_block_size_7;
+     decoder_block_size_8; decoder_block_size_9; decoder_block_size_10; decoder_block_size_11;
+     decoder_block_size_12; decoder_block_size_13] /\ decoders_count = 14.
+Proof. exact table_block_sizes_positive. Qed.
+
 Print Assumptions reads_are_one_read_I.
 Print Assumptions split_invariant_I.
 Print Assumptions length_and_crc_faithful_I.
@@ -119,3 +165,6 @@ Print Assumptions split_invariant.
 Print Assumptions length_and_crc_faithful.
 Print Assumptions stops_at_declared_length.
 Print Assumptions read_at_most_asked.
+Print Assumptions progress_split_invariant.
+Print Assumptions progress_counts_up.
+Print Assumptions block_sizes_positive.
